@@ -130,7 +130,12 @@ def c01_m_yo_to_cycle(o):
 
 def sum_cycle_to_yo(ex, st, args):
     c = args[0].e
+    key = (id(ex), "cycle_to_yo", c.get_id())
+    if key in _SUM_CACHE:
+        ym, od = _SUM_CACHE[key]
+        return st, Agg("tuple", "tuple", [IntV(ym, "u32"), IntV(od, "u32")])
     ym, od = ex.fresh("ym"), ex.fresh("od")
+    _SUM_CACHE[key] = (ym, od)
     ex.side.append(z3.Implies(z3.And(c >= 0, c < 146097),
                               z3.And(ym >= 0, ym <= 399, od >= 1, od <= z3.If(is_leap(ym), 366, 365), cyc(ym, od) == c)))
     # outside the precondition the real function may panic or return anything: report it as a panic edge
@@ -138,10 +143,17 @@ def sum_cycle_to_yo(ex, st, args):
     return st, Agg("tuple", "tuple", [IntV(ym, "u32"), IntV(od, "u32")])
 
 
+_SUM_CACHE = {}
+
+
 def sum_yo_to_cycle(ex, st, args):
     r, od = args[0].e, args[1].e
     pre = z3.And(r >= 0, r <= 399, od >= 1, od <= 366)
+    key = (id(ex), "yo_to_cycle", r.get_id(), od.get_id())
+    if key in _SUM_CACHE:       # same argument terms -> same result term (the function is pure)
+        return st, IntV(_SUM_CACHE[key], "u32")
     v = ex.fresh("cyc")
+    _SUM_CACHE[key] = v
     ex.side.append(z3.Implies(pre, v == cyc(r, od)))
     ex.side.append(z3.And(v >= 0, v <= 4294967295))
     ex.panics.append((z3.And(st.pc, z3.Not(pre)), "yo_to_cycle called outside its contract precondition", "yo_to_cycle"))
@@ -236,3 +248,22 @@ def c01_m_from_ordinal_and_flags(o):
     o.reachable("none", z3.Not(some))
     o.claim("some_iff", some == z3.And(y.e >= MINY, y.e <= MAXY, od.e >= 1, od.e <= z3.If(fl.e < 8, 366, 365)))
     o.claim("packed_word", z3.Implies(some, yof == y.e * 8192 + od.e * 16 + fl.e))
+
+
+@obligation(prop="C01", tier="thorough", timeout=900, shards=8,
+            desc="weekday() of every date equals (reference day number - 1) mod 7 with Monday = 0 (0001-01-01 is a Monday): the weekday part of every YEAR_TO_FLAGS cell against the day-count calendar",
+            bounds="all dates (representation invariant: year in range, ordinal <= 365/366, flags = YearFlags::from_year(year)); split per year mod 400")
+def c01_m_weekday(o):
+    periodicity(o)
+    y = o.input("y", "i32")
+    d = o.input("o", "u32")
+    o.require(z3.And(y.e >= MINY, y.e <= MAXY, d.e >= 1, d.e <= z3.If(is_leap(y.e), 366, 365)))
+    fl = o.call("YearFlags::from_year", y, name="flags")
+    date = Agg("struct", "NaiveDate", [IntV(y.e * 8192 + d.e * 16 + fl.fields[0].e, "i32")])
+    w = o.call("NaiveDate::weekday", o.ref(date), name="weekday")
+    o.flat = [w.disc]
+    o.no_panic()
+    o.reachable("sunday", w.disc == 6)
+    e = y.e / 400
+    o.use_lemma("dayno_periodic", e, y.e - 400 * e, d.e)
+    o.claim("weekday_is_daycount_mod_7", w.disc == (dayno(y.e, d.e) - 1) % 7, splits=[y.e % 400 == a for a in range(400)])
